@@ -84,14 +84,19 @@ def streams(draw, max_lines=8):
     return out
 
 
-def run_indenter(ind, stream, upto=None):
+_KEEP = []
+
+
+def run_indenter(ind, stream, upto=None, keep=False):
     toks = []
     pos = 0
     for ty, v in stream:
         toks.append(Token(ty, v, pos, 1, 1)); pos += len(v)
     out = []
     try:
-        for i, t in enumerate(ind.process(iter(toks))):
+        gen = ind.process(iter(toks))
+        if keep: _KEEP.append(gen)      # an abandoned stream stays referenced (a dropped generator would be closed at once)
+        for i, t in enumerate(gen):
             out.append((t.type, str(t)))
             if upto is not None and i + 1 >= upto:
                 return out, 'ABANDONED'
@@ -212,7 +217,7 @@ def check_program(case, ctx):
 def histories(draw):
     n = draw(st.integers(2, 4))
     return {'tab': draw(st.sampled_from([1, 4, 8])), 'streams': [draw(streams(5)) for _ in range(n)],
-            'abandon': [draw(st.one_of(st.none(), st.integers(1, 6))) for _ in range(n)]}
+            'abandon': [draw(st.one_of(st.none(), st.integers(1, 6))) for _ in range(n)], 'keep': draw(st.booleans())}
 
 
 @blame_lark
@@ -220,9 +225,10 @@ def check_history(case, ctx):
     tab = case['tab']
     shared = make_indenter(tab)
     dirty = False
+    del _KEEP[:]
     for stream, ab in zip(case['streams'], case['abandon']):
         s = [tuple(x) for x in stream]
-        got = run_indenter(shared, s, upto=ab)
+        got = run_indenter(shared, s, upto=ab, keep=case.get('keep', True))
         want = run_indenter(make_indenter(tab), s, upto=ab)
         if got != want:
             raise Violation('a reused Indenter gives a different result than a fresh one', tab_len=tab, streams=case['streams'], abandon=case['abandon'],
